@@ -5,6 +5,9 @@ import GV.Lib.VersionTable
        the initiator proposes the table's generated entries for the versions in <proposed>
        ("all" | "-" | "7,8,13") and is answered `AcceptVersion <version> <data>`.
   out: finished v=<v> m=<magic> dm=<0|1> ps=<0|1> q=<0|1>  |  err:<unproposed|nodecoder|decode|magic>
+  op:  qr <via> <table> <magic> <dm> <ps> <q> <proposed> <n> v1 hex1 … vn hexn
+       the same initiator answered `QueryReply {v1: hex1, …}`
+  out: finished v=0 nil query={<decodable entries>}
 -/
 namespace GV.Drv.C19
 open GV.Line GV.Model.VersionData GV.Model.Handshake GV.Lib.VersionTable
@@ -29,11 +32,47 @@ def parse (toks : List String) : Option Op :=
     pure { C, v, data := data.map (·.toNat) }
   | _ => none
 
+def parseRaw : List String → Option RawMap
+  | [] => some []
+  | v :: h :: rest => do
+    let v ← parseNat? v; let h ← parseHex? h; let r ← parseRaw rest
+    pure ((v, h.map (·.toNat)) :: r)
+  | _ => none
+
+/-- the initiator asked for a query: some proposed entry carries the query flag -/
+def proposedQuery (C : VMap) : Bool := C.any fun p => p.2.query
+
+def handleQr (toks : List String) : Out :=
+  match toks with
+  | "qr" :: via :: table :: magic :: dm :: ps :: q :: proposed :: n :: raw =>
+    match (do
+      if via ≠ "hs" ∧ via ≠ "conn" then none
+      let shape ← shape? table
+      let magic ← parseNat? magic
+      let dm ← parseBool? dm; let ps ← parseBool? ps; let q ← parseBool? q
+      let ks ← parseVersions? shape proposed
+      let C ← genMap shape ks magic dm ps q
+      let n ← parseNat? n
+      let t ← parseRaw raw
+      if t.length ≠ n then none
+      pure (C, t) : Option (VMap × RawMap)) with
+    | none => badOp
+    | some (C, t) =>
+      let model := renderCOut (clientReceive lk C (.queryReply t))
+      -- The property: the initiator completes only with a version it proposed. A query reply
+      -- completes the handshake with version 0; that is what was asked for only if the initiator
+      -- proposed the query flag. An unsolicited reply must be a handshake failure.
+      if proposedQuery C then { model := model }
+      else if !(SMsg.queryReply t).wellFormed then { model := model, spec := "err:*" }
+      else { model := model, spec := "err:*", cls := "unsolicited-queryreply" }
+  | _ => badOp
+
 def handle (line : String) : Out :=
+  if (tokens line).head? = some "qr" then handleQr (tokens line) else
   match parse (tokens line) with
   | none => badOp
   | some o =>
-    let model := renderCOut (clientHandleAccept lk o.C o.v o.data)
+    let model := renderCOut (clientReceive lk o.C (.accept o.v o.data))
     -- The property, stated independently of the client's code path: the handshake may complete
     -- only if the version was proposed, the data is valid for that version (= the version's own
     -- decoder accepts it) and it carries the magic the initiator proposed for that version.
@@ -41,7 +80,7 @@ def handle (line : String) : Out :=
       match lookupMap o.C o.v, lk o.v with
       | some own, some k =>
         match decode k o.data with
-        | some d => d.networkMagic == own.networkMagic
+        | some d => wellFormedOne o.data && d.networkMagic == own.networkMagic
         | none => false
       | _, _ => false
     { model := model, spec := if allowed then "*" else "err:*" }
